@@ -16,6 +16,11 @@ def jobs(tier):
         J('individual-table-selfref-k2', dict(KIND=2, KOPS=2, FIRST_OP=7), require_tags={'end': 1, 'dangling': 1}),
         J('mutation-table-k1', dict(KIND=3, KOPS=1)),
         J('mutation-table-selfref-k2', dict(KIND=3, KOPS=2, FIRST_OP=7), require_tags={'end': 1, 'dangling': 1}),
+        J('edge-table-k1', dict(KIND=4, KOPS=1)),
+        J('site-table-k1', dict(KIND=5, KOPS=1)),
+        J('migration-table-k1', dict(KIND=6, KOPS=1)),
+        J('population-table-k1', dict(KIND=7, KOPS=1)),
+        J('provenance-table-k1', dict(KIND=8, KOPS=1)),
         dict(name='kernel-capacity', harness='k_kernels.c', entry='main_kernel', defines=dict(KERNEL=2), timeout=600,
              env=dict(LLSYM_Z3_TIMEOUT_MS='5000', LLSYM_CVC5_TIMEOUT_MS='120000'), require_tags={'end': 1, 'grow': 1, 'overflow': 1}),
     ]
@@ -25,6 +30,8 @@ def jobs(tier):
         J('node-table-k3', dict(KIND=1, KOPS=3), timeout=3000, allow_incomplete=True),
         J('individual-table-k2', dict(KIND=2, KOPS=2), timeout=3000, allow_incomplete=True, require_tags={'end': 1, 'dangling': 1}),
         J('mutation-table-k2', dict(KIND=3, KOPS=2), timeout=3000, allow_incomplete=True, require_tags={'end': 1, 'dangling': 1}),
+        J('edge-table-k2', dict(KIND=4, KOPS=2), timeout=3000, allow_incomplete=True),
+        J('population-table-k2', dict(KIND=7, KOPS=2), timeout=3000, allow_incomplete=True),
     ]
 
 
@@ -33,12 +40,12 @@ BOUNDS = {
              'extend(copy, rows | NULL), clear, copy, append_columns(2 rows, metadata given or omitted)} on a 2-row table; individual and mutation tables: '
              'every single operation, and every operation after pointing the parent reference of one row at another row (keep_rows with self-references); all fixed-width '
              'fields free 32-bit or integer-valued doubles, ragged lengths 0-2 with symbolic bytes, max_rows_increment '
-             'default or 1 (reallocation on every insertion); contents compared with a plain C array of rows after every step',
-    'thorough': 'sequences of 3 (node) and 2 (individual, mutation) operations (time-boxed)',
+             'default or 1 (reallocation on every insertion); contents compared with a plain C array of rows after every step; edge, site, migration, population and provenance tables: every single operation from the same set on a 2-row table',
+    'thorough': 'sequences of 3 (node) and 2 (individual, mutation, edge, population) operations (time-boxed)',
 }
 OUTSIDE = ['the Python facade: __getitem__ with slices/masks/id arrays, packset_*, column attribute assignment, '
            'drop_metadata (numpy)', 'immutability of TreeSequence objects and WRITEABLE flags of exported arrays (numpy / CPython)',
-           'edge, site, migration, population and provenance tables (same code patterns, not yet instantiated)',
+           'sequences of two or more operations on edge, site, migration, population and provenance tables (quick tier: single operations)',
            'set_columns; append_columns on tables other than the node table']
 ASSUMPTIONS = ['a failed extend() behaves like list.extend() from a failing generator (rows before the bad index stay appended)']
 MANIFEST = dict(
